@@ -12,6 +12,7 @@ EXPLANATION = (
     "It does not decide equality of dumps."
     " C04.5: only node creation writes I2E records / assigns their label slot. C04.6 / C04.7 (CODEC): writer and reader of the meta page, the node-table record, the CSR segment meta page, the statistics blob and the index catalog page agree on {byte range -> field} resp. on the sequence of widths and names. C04.8: the id registries (LabelInterner.s2i / i2s, IdMap.i2e / i2l) only grow."
     " C04.9: for every two WalRecord kinds whose replay arm calls an IdMap applier (CreateNode, AddNodeLabel, RemoveNodeLabel), WriteTxn::commit appends them in the same relative order in which it calls those appliers on the live node table, so replaying the log reproduces the state the transaction left behind."
+    " C04.10: every per-element append loop of WriteTxn::commit reaches its append for every element (no path from the Some arm of the iterator back to the iterator avoids the append, error exits aside)."
 )
 
 MEM = "nervusdb_storage::memtable::MemTable"
@@ -25,6 +26,7 @@ def run(ctx):
     ctx.rule("C04.3", "rewrite_as_snapshot is reachable only when the published runs are empty")
     ctx.rule("C04.4", "the checkpoint watermark (up_to_txid) is below every transaction id that can still be handed out")
     log_order_rule(ctx)
+    log_all_rule(ctx)
 
     # ---- clause 1 ---------------------------------------------------------
     tb = ctx.body(MEM + "::tombstone_edge")
@@ -311,3 +313,40 @@ def log_order_rule(ctx, rid="C04.9"):
                        (v1, lo, v2, table[v1].split("::")[-1], ao, table[v2].split("::")[-1]), logged[v2][0].loc(),
                        sample={"logged": [v1, lo, v2], "applied": [table[v1], ao, table[v2]]})
     ctx.floor(rid, "ordered pairs of node-table record kinds", n, 3)
+
+
+def log_all_rule(ctx, rid="C04.10"):
+    """whatever commit iterates to log is logged for every element: no element of a staged collection is skipped between `next()` and the append"""
+    from .. import paths
+    F = ctx.facts
+    ctx.rule(rid, "in WriteTxn::commit every loop that appends a log record per staged element appends for every element: from the `Some` arm of the loop's "
+             "iterator no path returns to the iterator without passing the append (error exits aside) — the live run publishes all staged elements, so an "
+             "element skipped in the log is visible until the next reopen and gone after it")
+    b = ctx.body(M.COMMIT)
+    fails = paths.fail_blocks(b)
+    nexts = [c for c in b.calls() if c.declared == "core::iter::traits::iterator::Iterator::next"]
+    n = 0
+    for ap in b.calls():
+        if ap.name != M.WAL_APPEND:
+            continue
+        v = M.wal_append_variant(b, ap)
+        if v in (None, "BeginTx", "CommitTx"):
+            continue
+        # innermost loop: the iterator header that reaches the append and is reached back from it, with the smallest loop body
+        hs = [h for h in nexts if ap.bb in b.reachable([h.bb]) and h.bb in b.reachable([ap.bb])]
+        if not hs:
+            continue
+        h = min(hs, key=lambda h: len([x for x in b.reachable([h.bb]) if h.bb in b.reachable([x])]))
+        t = b.term(h.target) if h.target is not None else None
+        if not t or t[0] != "switch":
+            continue
+        some = dict((k, tb) for k, tb in t[2]).get(1, None)
+        if some is None:
+            continue
+        n += 1
+        back = h.bb in (b.reachable([some], avoid={ap.bb} | fails) | {some})
+        ctx.instance(rid, "commit: append(%s)#%d is reached for every element of its loop=%s" % (v, ap.ordinal, not back))
+        ctx.oblige(not back, rid, "%s:commit:append(%s)#%d:element-skipped" % (rid, v, ap.ordinal),
+                   "the loop that logs %s records can go on to the next staged element without logging the current one: the element is part of the published "
+                   "run but not of the log, so it disappears at the next reopen" % v, ap.loc())
+    ctx.floor(rid, "per-element append loops in commit", n, 8)
